@@ -220,7 +220,7 @@ pub fn run(ctx: &Ctx) -> Report {
     let isos = isometries();
     // alphabet of wrappers: kind x isometry
     let mut alphabet: Vec<Wrap> = Vec::new();
-    let iso_subset: Vec<usize> = if thorough { (0..isos.len()).collect() } else { vec![2, 4] };
+    let iso_subset: Vec<usize> = if thorough { (0..isos.len()).collect() } else { vec![1, 2, 3, 4] };
     for &i in &iso_subset {
         alphabet.push(Wrap::Tool(isos[i].0));
         alphabet.push(Wrap::Base(isos[i].0));
